@@ -111,6 +111,16 @@ NEEDS = {
  'C18-g': ('C18', ['C05'], 'TexExpr.__eq__ returns early when the numbers of children differ: an unparsed `{A \\textbf{b}}` string no longer equals the parsed group, so remove(str) raises or removes a later element'),
  'C19-g': ('C19', ['C12', 'C08'], 'sizing commands skip blanks between prefix and delimiter but emit the canonical name: `\\left (` consumes the blank and emits `left(`'),
  'C20-g': ('C20', [], 'Buffer.__next__ advances the cursor before it knows an item exists: each failed next() at the end moves the cursor one further'),
+ 'C01-h': ('C01', ['C13'], 'a bare-command argument (`\\def\\name{..}`) records the position of the name token instead of the backslash: the node-slice clause fails for that argument node only'),
+ 'C02-h': ('C02', ['C09'], 'every command whose name ends in `command` (any case, optional star) is read as a definition: `\\shellcommand{\\begin{center}..\\end{center}}` has no environment node'),
+ 'C03-h': ('C03', ['C04'], 'a query with `[` counts as a full expression only if it starts with a backslash: the full text of a `$x \\in [0,1]$` region (bracket, no brace) is compared as a name and never found'),
+ 'C04-h': ('C04', ['C11'], 'verbatim-like environments get preserve_whitespace=True: a blank-only verbatim body stays in contents/descendants/text'),
+ 'C05-h': ('C05', ['C15'], 'TexExpr.remove also accepts an element with the same text AND the same recorded offset: after merging two documents (same command at the same offset of its own source) the earlier twin is edited'),
+ 'C11-h': ('C11', ['C09'], 'the skip decision strips a trailing star from the name in the document but not from the names in skip_envs: `skip_envs=(\'code*\',)` is ignored'),
+ 'C13-h': ('C13', ['C19'], 'search_regex matches on the NFC-normalised leaf but adds the match start to the source position: matches after a letter + combining accent are reported too far left'),
+ 'C14-h': ('C14', ['C15'], 'the .string setter of a single-token argument overwrites Token.text in place: the str value of the token keeps the old text, so text searches / .text still see the old string'),
+ 'C16-h': ('C16', ['C17'], 'a parameterless \\newcommand registers its name with signature (0,0) in the module-level table: a use before the definition is read with arguments on load 1 and without on load 2'),
+ 'C17-h': ('C17', ['C16'], '\\newcommand{\\x}[n]{..} writes the arity into the module-level signature table: a later parse of another document using `\\x` is read with the earlier document\'s arity'),
 }
 
 
